@@ -372,3 +372,25 @@ func isNilIdent(info *types.Info, e ast.Expr) bool {
 func posIn(n ast.Node, pos token.Pos) bool { return n != nil && n.Pos() <= pos && pos < n.End() }
 
 type packagesPackage = packages.Package
+
+// DepFunc resolves a function of any loaded package (dependencies are loaded with syntax and types).
+func (p *Prog) DepFunc(pkgPath, recv, name string) *FuncInfo {
+	pk := p.ByPath[pkgPath]
+	if pk == nil || pk.TypesInfo == nil {
+		return nil
+	}
+	for _, f := range pk.Syntax {
+		for _, d := range f.Decls {
+			fd, ok := d.(*ast.FuncDecl)
+			if !ok || fd.Body == nil || fd.Name.Name != name || recvTypeName(fd) != recv {
+				continue
+			}
+			obj, _ := pk.TypesInfo.Defs[fd.Name].(*types.Func)
+			if obj == nil {
+				continue
+			}
+			return &FuncInfo{Obj: obj, Decl: fd, Pkg: pk}
+		}
+	}
+	return nil
+}
